@@ -994,6 +994,29 @@ fn gen_look_grammar(r: &mut Rng, h: &mut Hist) -> Vec<N2> {
     nts
 }
 
+/// number of productions after inlining (cross product of the alternatives of inlined symbols)
+fn look_size(nts: &[N2]) -> u64 {
+    let k = nts.len();
+    let mut count = vec![0u64; k];
+    for i in (0..k).rev() {
+        let mut total = 0u64;
+        for a in &nts[i].alts {
+            let mut p = 1u64;
+            for it in &a.items {
+                let f = match it {
+                    It::N(j) if nts[*j].inline => count[*j].max(1),
+                    It::Opt(_) | It::Star(_) => 2,
+                    _ => 1,
+                };
+                p = p.saturating_mul(f);
+            }
+            total = total.saturating_add(p);
+        }
+        count[i] = total;
+    }
+    (0..k).filter(|&i| !nts[i].inline).map(|i| count[i]).fold(0u64, |a, b| a.saturating_add(b))
+}
+
 fn render_look(nts: &[N2], ascent: bool) -> String {
     let mut s = String::from("use crate::R;\n");
     if ascent {
@@ -1598,8 +1621,17 @@ fn main() {
             } else {
                 gen_look_grammar(&mut r, &mut h)
             };
+            if look_size(&nts) > 160 {
+                h.hit("look-skipped:too-many-inlined-productions");
+                continue;
+            }
             let text_t = render_look(&nts, false);
+            let t_try = std::time::Instant::now();
+            let trace = std::env::var("LOWER_TRACE").is_ok();
             let inl = stage(&text_t, "inline");
+            if trace {
+                eprintln!("try {tries}: inline dump {} bytes in {:?}", inl.len(), t_try.elapsed());
+            }
             if !inl.starts_with("ok ") || inl.len() > 60_000 {
                 h.hit("look-rejected:normalize-or-size");
                 continue;
@@ -1612,6 +1644,9 @@ fn main() {
                     continue;
                 }
             };
+            if trace {
+                eprintln!("try {tries}: generated {} bytes at {:?}", code_t.len(), t_try.elapsed());
+            }
             look_cases(&inl, &code_t, &mut st, &mut h, &mut shapes);
             emitted += 1;
             if sample.is_empty() {
@@ -1619,6 +1654,9 @@ fn main() {
             }
             if comp.len() < n_comp && code_t.len() < 110_000 && comp_bytes < 900_000 {
                 let text_a = render_look(&nts, true);
+                if trace {
+                    eprintln!("try {tries}: ascent generation starts (table-driven {} bytes)\n{text_t}", code_t.len());
+                }
                 let code_a = match generate_parser(&gen_dir, &format!("{stem}a"), &text_a, |_| {}) {
                     Ok(c) => c,
                     Err(_) => {
